@@ -212,7 +212,16 @@ Qed.
 Inductive crel : rmsg -> amsg -> Prop :=
 | cr_w : crel RWatch AWatch
 | cr_r : crel RUnwatch AUnwatch
-| cr_b s T : stab s T -> Twf T -> crel (RBind s) (ABind T).
+| cr_b s T ans : stab s T -> Twf T -> crel (RBind s ans) (ABind T (negb (ans =? -1))).
+
+Lemma cr_b_ans : forall s T id, 0 <= id -> stab s T -> Twf T -> crel (RBind s id) (ABind T true).
+Proof.
+  intros s T id H A B. replace true with (negb (id =? -1)); [constructor; assumption |].
+  destruct (Z.eqb_spec id (-1)); [lia | reflexivity].
+Qed.
+
+Lemma cr_b_f : forall s T, stab s T -> Twf T -> crel (RBind s (-1)) (ABind T false).
+Proof. intros s T A B. exact (cr_b s T (-1) A B). Qed.
 
 Record Rel (w : world) (al : astate) : Prop := {
   r_q : learnQ (wn w) = a_queue al;
@@ -275,7 +284,7 @@ Lemma unmap_sim : forall ports n T a c n' out,
   NI ports n -> NT n T -> nrt_unmap n a c = Some (n', out) ->
   let T' := match at_ctl (a, c) T with Some _ => at_remove (a, c) T | None => T end in
   NI ports n' /\ NT n' T' /\ learnQ n' = learnQ n /\
-  Forall2 crel out (match at_ctl (a, c) T with Some _ => [ABind T'] | None => [] end).
+  Forall2 crel out (match at_ctl (a, c) T with Some _ => [ABind T' false] | None => [] end).
 Proof.
   intros ports n T a c n' out I N E T'.
   destruct (NI_unmap ports n a c I) as [n1 [out1 [E1 [I1 [LQ [AK OS]]]]]].
@@ -321,7 +330,7 @@ Section Sim.
         unfold a_unmap_out.
         destruct (at_ctl (a, c) (a_tab al)) as [i |] eqn:F; cbn [fst snd].
         * split.
-          -- rewrite erase_out. f_equal. rewrite (obs_out_eq (out0 ++ [RWatch]) ([ABind (at_remove (a, c) (a_tab al))] ++ [AWatch])).
+          -- rewrite erase_out. f_equal. rewrite (obs_out_eq (out0 ++ [RWatch]) ([ABind (at_remove (a, c) (a_tab al)) false] ++ [AWatch])).
              ++ clear. induction (_ ++ _) as [| m l IH]; [reflexivity |]. cbn. rewrite <- IH. destruct m; reflexivity.
              ++ apply Forall2_app; [exact CR | repeat constructor].
           -- constructor; cbn [wn wr chN chR nstorage inv_map learnQ a_send a_queue a_tab a_chN a_chR a_rtab a_pend a_watch];
@@ -353,8 +362,8 @@ Section Sim.
           -- apply Forall2_app; assumption.
     - (* clear *)
       cbn [nrt_clear nrt_result] in St. inversion St; subst w' o; clear St. cbn [app fst snd].
-      assert (CR : Forall2 crel (map (fun _ => RUnwatch) (learnQ (wn w)) ++ [RBind empty_store])
-                               (map (fun _ => AUnwatch) (a_queue al) ++ [ABind []])).
+      assert (CR : Forall2 crel (map (fun _ => RUnwatch) (learnQ (wn w)) ++ [RBind empty_store (-1)])
+                               (map (fun _ => AUnwatch) (a_queue al) ++ [ABind [] false])).
       { rewrite Rq. apply Forall2_app.
         - clear. induction (a_queue al); cbn; constructor; [constructor | assumption].
         - constructor; [| constructor]. constructor; [intro id; reflexivity |].
@@ -485,7 +494,7 @@ Section Sim.
         constructor; cbn [wn wr chN chR a_send a_queue a_tab a_chN a_chR a_rtab a_pend a_watch]; try assumption;
           try reflexivity.
         apply Forall2_app; [assumption |]. constructor; [| constructor].
-        constructor; [eapply NT_stab; eassumption | apply N'].
+        apply cr_b_ans; [exact Hid | eapply NT_stab; eassumption | apply N'].
     - (* deliver to RT *)
       destruct (chR w) as [| m rest] eqn:ER; destruct (a_chR al) as [| am arest] eqn:EA;
         try (inversion Rcr; fail).
@@ -494,7 +503,7 @@ Section Sim.
       + inversion Rcr as [| ? ? ? ? Hm Hrest]; subst.
         destruct (rt_deliver (wr w) m) as [r' |] eqn:D; [| discriminate].
         inversion St; subst w' o; clear St.
-        destruct Hm as [| | s T Hst HTw]; cbn [rt_deliver] in D; cbn [fst snd map].
+        destruct Hm as [| | s T ans Hst HTw]; cbn [rt_deliver] in D; cbn [fst snd map].
         * inversion D; subst r'. split; [reflexivity |].
           constructor; cbn [wn wr chN chR rstorage pending watch a_queue a_tab a_chN a_chR a_rtab a_pend a_watch];
             try assumption. try rewrite Rw; reflexivity.
@@ -502,13 +511,15 @@ Section Sim.
           constructor; cbn [wn wr chN chR rstorage pending watch a_queue a_tab a_chN a_chR a_rtab a_pend a_watch];
             try assumption. try rewrite Rw; reflexivity.
         * split; [reflexivity |].
-          destruct (bind_installs _ _ _ D) as [s2 [Es2 [M2 C2]]].
-          destruct (deliver_bind_fact _ _ _ D) as [_ [Hpop Hw]].
+          destruct (bind_installs _ _ _ _ D) as [s2 [Es2 [M2 C2]]].
+          destruct (deliver_bind_fact _ _ _ _ D) as [_ [Hpop Hw]].
           constructor; cbn [wn wr chN chR a_queue a_tab a_chN a_chR a_rtab a_pend a_watch]; try assumption.
           -- rewrite Es2. eapply stab_same; eassumption.
-          -- destruct (a_pend al) as [| x P] eqn:EP.
-             ++ rewrite (pq_pop_nil _ Rp) in Hpop. replace (pending r') with (pending (wr w)) by congruence. exact Rp.
-             ++ destruct (pq_pop_spec _ _ _ Rp) as [q' [Eq Rq']]. rewrite Hpop in Eq. inversion Eq; subst q'. exact Rq'.
+          -- destruct (Z.eqb_spec ans (-1)) as [Ea | Ea]; cbn [negb].
+             ++ replace (pending r') with (pending (wr w)) by congruence. exact Rp.
+             ++ destruct (a_pend al) as [| x P] eqn:EP.
+                ** rewrite (pq_pop_nil _ Rp) in Hpop. replace (pending r') with (pending (wr w)) by congruence. exact Rp.
+                ** destruct (pq_pop_spec _ _ _ Rp) as [q' [Eq Rq']]. rewrite Hpop in Eq. inversion Eq; subst q'. exact Rq'.
           -- rewrite Hw. exact Rw.
   Qed.
 End Sim.
